@@ -7,6 +7,7 @@ open MiciVerif MiciVerif.Transitions MiciVerif.Transitions.Dist MiciVerif.Proto
 `metro n i fwd lo [w…] [badEdges…]`
     orbit window starts at index `lo`; `w` = weights of lo, lo+1, …; edge e joins e and e+1.
     → `j:dir:p/q,…` (distribution of `_sample_n_step`)
+`metrostat n i fwd lo [w…] [badEdges…]` → `n_step | accept_stat | integration_error` (`metropolisStats`)
 `metror nlo nhi i fwd lo [w…] [badEdges…]` → same for the random-length variant
 `tree D k [w…] [ok…] [edge…] [term…]`
     perfect tree of depth D, start leaf k; `term` = flags of levels 1..D concatenated
@@ -53,6 +54,15 @@ def step (line : String) : String :=
       let d := metropolis o n (i, fwd)
       let supp := [(if fwd then i + n else i - n, fwd), (i, !fwd)].eraseDups
       showDist (fun (x : Int × Bool) => s!"{x.1}:{if x.2 then 1 else 0}") d supp
+    | _, _, _, _, _, _ => "bad-op"
+  | ["metrostat", n, i, fwd, lo, w, bad] =>
+    match n.toNat?, parseInt? i, parseBool? fwd, parseInt? lo, parseVec? w, intVec? bad with
+    | some n, some i, some fwd, some lo, some w, some bad =>
+      let o : MOrbitS Rat :=
+        { w := fun i => if i < lo then 0 else getD w (i - lo).toNat 0
+          stepOk := fun e => decide (lo ≤ e) && decide (e + 1 < lo + w.length) && !(bad.contains e) }
+      let st := metropolisStats o n (i, fwd)
+      s!"{st.1} | {showRat st.2.1} | {if st.2.2 then 1 else 0}"
     | _, _, _, _, _, _ => "bad-op"
   | ["metror", nlo, nhi, i, fwd, lo, w, bad] =>
     match nlo.toNat?, nhi.toNat?, parseInt? i, parseBool? fwd, parseInt? lo, parseVec? w, intVec? bad with
